@@ -61,6 +61,7 @@ def decl_specs(tier):
         add([c], 'c')
     for c in ('i1', 'i3', 'dn', 'm0', 'b35', 'sn', 'su', 'sr', 'o1', 'r1', 'rs', 'sdn'):
         specs.append({'names': [c], 'wrapper': 'd'})
+    specs.extend(alphabet.boundary_specs())
     return specs
 
 
@@ -72,9 +73,6 @@ def check_decl(dc, st, tier, only=None):
     budget = ea.budget_for(dc, tier)
     for raw, r in ea.inputs_for(dc, budget):
         r, u = ea.conformance(dc, st, raw, r)
-        st.add('states', ea.state_key(dc, r, u, raw))
-    for raw in dc.spec.get('extra_inputs', ()):
-        r, u = ea.conformance(dc, st, raw, ea.ref_parse(dc.P, raw))
         st.add('states', ea.state_key(dc, r, u, raw))
 
 
